@@ -101,14 +101,17 @@ def bounds_sx(s: dict) -> str:
 
 
 KNOWN_KEYS = {
+    "allOf",
     "type", "title", "properties", "required", "additionalProperties", "items", "enum", "const", "$ref", "anyOf", "oneOf",
     "minimum", "maximum", "exclusiveMinimum", "exclusiveMaximum", "multipleOf", "minLength", "maxLength", "pattern",
     "minItems", "maxItems", "definitions", "x-draft4",
 }
 
 
-def schema_sx(s: Any) -> str:
-    """S-expression of the Lean `Schema` for JSON-Schema node `s`; raises Unmodelled outside the subset"""
+def schema_sx(s: Any, top: bool = False) -> str:
+    """S-expression of the Lean `Schema` for JSON-Schema node `s`; raises Unmodelled outside the subset.
+    `top`: the node is a whole document / definition (an object without properties is then an empty
+    class, not `Dict[str, Any]`)."""
     if s is True or s == {}:
         return "any"
     if not isinstance(s, dict):
@@ -123,6 +126,28 @@ def schema_sx(s: Any) -> str:
         if not ref.startswith("#/definitions/"):
             raise Unmodelled("non-local ref")
         return f"(ref {hx(ref.rsplit('/', 1)[1])})"
+    if "allOf" in s:
+        # shape modelled: $ref parts (to object definitions), at most one inline object without
+        # additionalProperties, at most one bare {"required": [...]}
+        if set(s) - {"allOf", "title", "definitions", "x-draft4"}:
+            raise Unmodelled("allOf with sibling keywords")
+        refs, props, req, xreq = [], None, [], []
+        for part in s["allOf"]:
+            if set(part) == {"$ref"}:
+                if not part["$ref"].startswith("#/definitions/"):
+                    raise Unmodelled("non-local ref")
+                refs.append(part["$ref"].rsplit("/", 1)[1])
+            elif set(part) == {"required"}:
+                xreq += list(part["required"])
+            elif part.get("type") == "object" and set(part) <= {"type", "properties", "required"} and props is None:
+                props = part.get("properties", {})
+                req = list(part.get("required", []))
+            else:
+                raise Unmodelled("allOf part outside the modelled shape")
+        if not refs:
+            raise Unmodelled("allOf without $ref part")
+        ps = " ".join(f"({hx(k)} {schema_sx(v)})" for k, v in (props or {}).items())
+        return f"(allOf ({' '.join(hx(r) for r in refs)}) ({ps}) ({' '.join(hx(k) for k in req)}) ({' '.join(hx(k) for k in xreq)}))"
     if "anyOf" in s or "oneOf" in s:
         key = "anyOf" if "anyOf" in s else "oneOf"
         if set(s) - {key, "title", "definitions", "x-draft4"}:
@@ -184,6 +209,9 @@ def schema_sx(s: Any) -> str:
                 raise Unmodelled("required without properties")
             if isinstance(ap, dict):
                 return f"(dict {schema_sx(ap)})"
+            if top:
+                addl0 = "absent" if ap is None else ("allow" if ap else "forbid")
+                return f"(object () () {addl0})"
             if ap is None or ap is True:
                 return "(dict any)"
             raise Unmodelled("closed object without properties")
@@ -197,7 +225,7 @@ def schema_sx(s: Any) -> str:
 
 
 def defs_sx(doc: dict) -> str:
-    return "(" + " ".join(f"({hx(k)} {schema_sx(v)})" for k, v in (doc.get("definitions") or {}).items()) + ")"
+    return "(" + " ".join(f"({hx(k)} {schema_sx(v, top=True)})" for k, v in (doc.get("definitions") or {}).items()) + ")"
 
 
 def body_of(doc: dict) -> dict:
@@ -303,6 +331,8 @@ def canon_ty(t) -> Any:
         return ("model", t[1], tuple(("field", unhx(f[1]), f[2] == "1", canon_cons(f[3]), canon_ty(f[4])) for f in t[2:]))
     if h == "root":
         return ("root", canon_cons(t[1]), canon_ty(t[2]))
+    if h == "derived":
+        return ("derived", tuple(unhx(b) for b in t[1]), t[2], tuple(("field", unhx(f[1]), f[2] == "1", canon_cons(f[3]), canon_ty(f[4])) for f in t[3:]))
     if h == "ref":
         return ("ref", unhx(t[1]))
     if h == "union":
@@ -409,8 +439,15 @@ class RealIR:
         fields = []
         for f in dm.fields:
             fields.append(("field", f.original_name if f.original_name is not None else f.name, bool(f.required), self.field_cons(f), self.dump_field_type(f)))
-        if dm.base_classes and any(b.reference for b in dm.base_classes):
-            raise Unmodelled("inheritance")
+        bases = [b.reference for b in dm.base_classes if b.reference]
+        if bases:
+            names = []
+            for r in bases:
+                nm = self.def_name(r.path)
+                if nm is None:
+                    raise Unmodelled("base class that is not a definition")
+                names.append(nm)
+            return ("derived", tuple(names), extra, tuple(fields))
         return ("model", extra, tuple(fields))
 
     def field_cons(self, f) -> tuple:
